@@ -383,10 +383,10 @@ def r15_5(chk, mod):
             seen[typ] = pcs[0].spec
     fl, it = seen.get("float"), seen.get("int")
     chk.ob("R15.5", MOD, "format_field", "floats are written fixed-point ('f') with an explicit precision and no grouping",
-           fl is not None and fl.type == "f" and fl.prec is not None and fl.valid and fl.fill in (None, " "),
+           fl is not None and fl.type == "f" and fl.prec is not None and fl.valid and fl.fill in (None, " ") and fl.group is None,
            found=fl.text if fl else None)
     chk.ob("R15.5", MOD, "format_field", "integers are written with 'd' and no grouping",
-           it is not None and it.type == "d" and it.valid and it.fill in (None, " "), found=it.text if it else None)
+           it is not None and it.type == "d" and it.valid and it.fill in (None, " ") and it.group is None, found=it.text if it else None)
     # the int branch must not capture bools/floats: float test precedes
     order = [k for k in seen]
     chk.ob("R15.5", MOD, "format_field", "strings are returned as text (quoted when needed), never formatted as numbers",
